@@ -204,7 +204,9 @@ impl<N, C> Topology<N, C> {
         });
 
         let mut mapping = FxHashMap::with_hasher(FxBuildHasher::default());
-        while let Some(cur) = queue.pop() {
+        // FIFO order: nodes are settled in order of increasing hop distance
+        while !queue.is_empty() {
+            let cur = queue.remove(0);
             if visited.contains(&cur.idx) {
                 continue;
             }
@@ -309,7 +311,10 @@ impl Topology<(), ()> {
         let mut modules = vec![root];
         let mut this = Self::default();
 
-        while let Some(module) = modules.pop() {
+        // FIFO order: the indices predicted for queued modules below assume
+        // that modules become nodes in the order in which they were queued
+        while !modules.is_empty() {
+            let module = modules.remove(0);
             let gates = module.gates();
 
             this.nodes.push(Node { data: (), module });
